@@ -192,9 +192,17 @@ func goroutineJoin(c *Ctx) {
 				if isDone(d) {
 					deferred = true
 				}
-				if cl := closureOf(d.Common()); cl != nil {
+				cl := closureOf(d.Common())
+				if cl == nil {
+					// a method of the connection deferred directly (`defer svc.recoverAndDone()`)
+					if f := d.Common().StaticCallee(); f != nil && c.P.InLib(f) && f.Blocks != nil {
+						cl = f
+					}
+				}
+				if cl != nil {
 					for _, c2 := range ir.Calls(cl) {
-						if isDone(c2) {
+						// Done must not itself be conditional inside the deferred function
+						if isDone(c2) && c2.Block().Dominates(lastBlockOf(cl)) {
 							deferred = true
 						}
 					}
@@ -800,4 +808,13 @@ func blockReaches(a, b *ssa.BasicBlock) bool {
 		work = append(work, x.Succs...)
 	}
 	return false
+}
+
+// lastBlockOf: the block of fn's (single) return; the entry block when there are several.
+func lastBlockOf(fn *ssa.Function) *ssa.BasicBlock {
+	rets := ir.Returns(fn)
+	if len(rets) == 1 {
+		return rets[0].Block()
+	}
+	return fn.Blocks[0]
 }
